@@ -1,9 +1,186 @@
-import FalconModel.WfIL
+/-
+  Props.C05 — soundness of the well-formedness checker for lifted IL (FalconModel/WfIL.lean).
+
+  The checker is run on what the real translators return (harness/src/bin/c05.rs, Drivers/C05.lean).  Here:
+  if it accepts, then for EVERY state that defines the scalars read (at their declared widths)
+    * no expression evaluation ends in a sort error, a missing-scalar error or a panic; it yields a value of the
+      expression's width, or the division error if the expression divides by zero        (`expr_no_sort_error`)
+    * no operation fails with a sort error; an assignment stores a value of the destination's width  (`op_no_sort_error`)
+    * at every block with out-edges, and at the successors of the lifted block, exactly one guard is enabled
+      (`guards_exactly_one`), unless a guard itself divides by zero
+    * every instruction graph has an existing entry and exit, and every edge joins existing blocks  (`graph_shape`)
+  "Never panics / terminates" of the Rust and C code is not a statement about IL and is not proved here.
+-/
+import FalconProofs.C05.Guards
+
 namespace Falcon.C05
 open Falcon
 
-/-- placeholder obligation while the soundness proof is being written: the checker accepts the empty result -/
-theorem btrIll_empty (cx : WfCtx) : btrIll cx { addr := 0, length := 0, instrs := [], succs := [] } = none := by
-  simp [btrIll, widthClash, scalarsOf, guardsPartition]
+/-- every expression obeying the width rules evaluates without sort error, in every defining state -/
+theorem expr_no_sort_error (σ : State) (e : Expr) (hw : e.wellSorted = true)
+    (hd : ∀ s ∈ e.scalars, σ.Defines s) :
+    (∃ c, σ.evalIn e = .ok c ∧ c.bits = e.bits ∧ c.Good) ∨ σ.evalIn e = .err .div0 :=
+  evalIn_wellSorted σ e hw hd
+
+theorem expr_not_sort (σ : State) (e : Expr) (hw : e.wellSorted = true)
+    (hd : ∀ s ∈ e.scalars, σ.Defines s) :
+    σ.evalIn e ≠ .err .sort ∧ σ.evalIn e ≠ .err .scalar ∧ σ.evalIn e ≠ .panic := by
+  rcases evalIn_wellSorted σ e hw hd with ⟨c, h, _, _⟩ | h <;> rw [h] <;>
+    exact ⟨(by intro x; cases x), (by intro x; cases x), (by intro x; cases x)⟩
+
+/-- the scalars an operation reads are defined -/
+def ReadsDefined (σ : State) (op : Op) : Prop := ∀ ss, op.scalarsRead = some ss → ∀ s ∈ ss, σ.Defines s
+
+/-- a well-formed operation never fails with a sort error or on an undefined scalar -/
+theorem op_no_sort_error (cx : WfCtx) (σ : State) (op : Op) (hw : opWf cx op = true) (hd : ReadsDefined σ op) :
+    execute σ op ≠ .err .sort ∧ execute σ op ≠ .err .scalar := by
+  cases op with
+  | assign d s =>
+    simp only [opWf, Bool.and_eq_true, decide_eq_true_eq] at hw
+    have hds : ∀ x ∈ s.scalars, σ.Defines x := hd _ rfl
+    rcases evalIn_wellSorted σ s hw.1.1 hds with ⟨c, h, _, _⟩ | h <;> simp only [execute, h] <;>
+      exact ⟨(by intro x; cases x), (by intro x; cases x)⟩
+  | store i s =>
+    simp only [opWf, Bool.and_eq_true, decide_eq_true_eq] at hw
+    have hall : ∀ x ∈ i.scalars ++ s.scalars, σ.Defines x := hd _ rfl
+    have hs := evalIn_wellSorted σ s hw.1.1.1.2 (fun x hx => hall x (by simp [hx]))
+    have hi := evalIn_wellSorted σ i hw.1.1.1.1 (fun x hx => hall x (by simp [hx]))
+    rcases hs with ⟨cs, h1, _, _⟩ | h1
+    · rcases hi with ⟨ci, h2, _, _⟩ | h2
+      · simp only [execute, h1, h2, Res.bind_ok, addrOf]
+        by_cases c1 : ci.val < 2 ^ 64 <;> simp only [c1, ↓reduceIte, Res.bind_ok, Res.bind_err]
+        · by_cases c2 : (cs.bits % 8 ≠ 0 ∨ cs.bits = 0) <;> simp only [c2, ↓reduceIte]
+          · exact ⟨(by intro x; cases x), (by intro x; cases x)⟩
+          · by_cases c3 : ci.val + cs.bits / 8 > 2 ^ 64 <;> simp only [c3, ↓reduceIte] <;>
+              exact ⟨(by intro x; cases x), (by intro x; cases x)⟩
+        · exact ⟨(by intro x; cases x), (by intro x; cases x)⟩
+      · simp only [execute, h1, h2]; exact ⟨(by intro x; cases x), (by intro x; cases x)⟩
+    · simp only [execute, h1]; exact ⟨(by intro x; cases x), (by intro x; cases x)⟩
+  | load d i =>
+    simp only [opWf, Bool.and_eq_true, decide_eq_true_eq] at hw
+    have hds : ∀ x ∈ i.scalars, σ.Defines x := hd _ rfl
+    rcases evalIn_wellSorted σ i hw.1.1.1 hds with ⟨c, h, _, _⟩ | h
+    · simp only [execute, h, Res.bind_ok, addrOf]
+      by_cases c1 : c.val < 2 ^ 64 <;> simp only [c1, ↓reduceIte, Res.bind_ok, Res.bind_err]
+      · by_cases c2 : (d.bits % 8 ≠ 0 ∨ d.bits = 0) <;> simp only [c2, ↓reduceIte]
+        · exact ⟨(by intro x; cases x), (by intro x; cases x)⟩
+        · by_cases c3 : c.val + d.bits / 8 > 2 ^ 64 <;> simp only [c3, ↓reduceIte]
+          · exact ⟨(by intro x; cases x), (by intro x; cases x)⟩
+          · cases σ.mem.readBytes c.val (d.bits / 8) <;>
+              exact ⟨(by intro x; cases x), (by intro x; cases x)⟩
+      · exact ⟨(by intro x; cases x), (by intro x; cases x)⟩
+    · simp only [execute, h]; exact ⟨(by intro x; cases x), (by intro x; cases x)⟩
+  | branch t =>
+    simp only [opWf, Bool.and_eq_true, decide_eq_true_eq] at hw
+    have hds : ∀ x ∈ t.scalars, σ.Defines x := hd _ rfl
+    rcases evalIn_wellSorted σ t hw.1 hds with ⟨c, h, _, _⟩ | h
+    · simp only [execute, h, Res.bind_ok, addrOf]
+      by_cases c1 : c.val < 2 ^ 64 <;> simp only [c1, ↓reduceIte, Res.bind_ok, Res.bind_err] <;>
+        exact ⟨(by intro x; cases x), (by intro x; cases x)⟩
+    · simp only [execute, h]; exact ⟨(by intro x; cases x), (by intro x; cases x)⟩
+  | intrinsic _ => simp only [execute]; exact ⟨(by intro x; cases x), (by intro x; cases x)⟩
+  | nop => simp only [execute]; exact ⟨(by intro x; cases x), (by intro x; cases x)⟩
+
+/-- a well-formed assignment stores a value of the destination's width (or hits a division by zero) -/
+theorem assign_width (cx : WfCtx) (σ : State) (d : Scalar) (s : Expr) (hw : opWf cx (.assign d s) = true)
+    (hd : ∀ x ∈ s.scalars, σ.Defines x) :
+    (∃ c, execute σ (.assign d s) = .ok (σ.set d.name c, .fallThrough) ∧ c.bits = d.bits ∧ c.Good)
+      ∨ execute σ (.assign d s) = .err .div0 := by
+  simp only [opWf, Bool.and_eq_true, decide_eq_true_eq] at hw
+  rcases evalIn_wellSorted σ s hw.1.1 hd with ⟨c, h, hb, hg⟩ | h
+  · exact .inl ⟨c, by simp [execute, h], by rw [hb]; exact hw.1.2, hg⟩
+  · exact .inr (by simp [execute, h])
+
+/-- **edge determinism**: an accepted guard list has exactly one enabled guard in every defining state -/
+theorem guards_exactly_one (σ : State) (gs : List (Option Expr)) (hp : guardsPartition gs = true)
+    (hw : ∀ g ∈ gs, guardWf g = true)
+    (hd : ∀ g ∈ gs, ∀ e, g = some e → ∀ s ∈ e.scalars, σ.Defines s) :
+    gs = [] ∨ gs = [none] ∨
+      ∃ g h, gs = [some g, some h] ∧
+        ((∃ e, e ∈ [g, h] ∧ σ.evalIn e = .err .div0) ∨ ExactlyOne σ g h) := by
+  match gs, hp with
+  | [], _ => exact .inl rfl
+  | [none], _ => exact .inr (.inl rfl)
+  | [some g, some h], hp =>
+    refine .inr (.inr ⟨g, h, rfl, ?_⟩)
+    simp only [guardsPartition, Bool.and_eq_true, beq_iff_eq] at hp
+    have hwg := hw (some g) (by simp)
+    have hwh := hw (some h) (by simp)
+    simp only [guardWf, Bool.and_eq_true, decide_eq_true_eq] at hwg hwh
+    exact complement_sound σ g h hp.2 hwg.1 hwh.1 hp.1.1 hp.1.2
+      (hd (some g) (by simp) g rfl) (hd (some h) (by simp) h rfl)
+
+/-- what acceptance of an instruction graph gives syntactically -/
+theorem graph_shape (cx : WfCtx) (f : Function) (h : graphIll cx f = none) :
+    (∀ b ∈ f.cfg.blocks, ∀ i ∈ b.instrs, opWf cx i.op = true) ∧
+    (∀ e ∈ f.cfg.edges, guardWf e.cond = true) ∧
+    (∀ e ∈ f.cfg.edges, f.cfg.hasBlock e.head = true ∧ f.cfg.hasBlock e.tail = true) ∧
+    (∃ en, f.cfg.entry = some en ∧ f.cfg.hasBlock en = true) ∧
+    (∃ ex, f.cfg.exit = some ex ∧ f.cfg.hasBlock ex = true) ∧
+    (∀ b ∈ f.cfg.blocks, guardsPartition ((f.cfg.edgesOut b.index).map (·.cond)) = true) := by
+  unfold graphIll firstFalse at h
+  simp only [Option.map_eq_none_iff, List.find?_eq_none] at h
+  have h1 := h _ (List.mem_cons_self ..)
+  have h2 := h _ (List.mem_cons_of_mem _ (List.mem_cons_self ..))
+  have h3 := h _ (List.mem_cons_of_mem _ (List.mem_cons_of_mem _ (List.mem_cons_self ..)))
+  have h4 := h _ (List.mem_cons_of_mem _ (List.mem_cons_of_mem _ (List.mem_cons_of_mem _ (List.mem_cons_self ..))))
+  have h5 := h _ (List.mem_cons_of_mem _ (List.mem_cons_of_mem _ (List.mem_cons_of_mem _
+    (List.mem_cons_of_mem _ (List.mem_cons_self ..)))))
+  have h7 := h _ (List.mem_cons_of_mem _ (List.mem_cons_of_mem _ (List.mem_cons_of_mem _
+    (List.mem_cons_of_mem _ (List.mem_cons_of_mem _ (List.mem_cons_of_mem _ (List.mem_cons_self ..)))))))
+  simp only [Bool.not_eq_true', Bool.not_eq_false, Bool.not_eq_eq_eq_not, Bool.not_true,
+    Bool.not_false] at h1 h2 h3 h4 h5 h7
+  simp only [List.all_eq_true, Bool.and_eq_true] at h1 h2 h3 h7
+  refine ⟨h1, h2, h3, ?_, ?_, h7⟩
+  · cases he : f.cfg.entry with
+    | none => simp [he] at h4
+    | some en => exact ⟨en, rfl, by simpa [he] using h4⟩
+  · cases he : f.cfg.exit with
+    | none => simp [he] at h5
+    | some ex => exact ⟨ex, rfl, by simpa [he] using h5⟩
+
+/-- acceptance of a whole lifted block: every instruction graph is accepted and the successor guards are
+    well-formed and form a partition -/
+theorem btr_accepted (cx : WfCtx) (r : BTR) (h : btrIll cx r = none) :
+    (∀ f ∈ r.instrs, graphIll cx f = none) ∧
+    (∀ s ∈ r.succs, guardWf s.2 = true) ∧
+    (r.succs = [] ∨ guardsPartition (r.succs.map (·.2)) = true) ∧
+    widthClash (scalarsOf r) = none := by
+  unfold btrIll at h
+  split at h
+  · cases h
+  · rename_i hnone
+    split at h
+    · cases h
+    · rename_i hs
+      split at h
+      · cases h
+      · rename_i hp
+        split at h
+        · cases h
+        · rename_i hwc
+          refine ⟨?_, ?_, ?_, hwc⟩
+          · intro f hf
+            rw [List.findSome?_eq_none_iff] at hnone
+            have := hnone f hf
+            simpa using this
+          · simpa [List.all_eq_true] using hs
+          · simp only [Bool.and_eq_true, Bool.not_eq_true', Bool.not_eq_false, not_and, Bool.not_eq_true] at hp
+            by_cases he : r.succs = []
+            · exact .inl he
+            · right
+              have : r.succs.isEmpty = false := by simpa [List.isEmpty_iff] using he
+              cases hg : guardsPartition (r.succs.map (·.2)) with
+              | true => rfl
+              | false => exact absurd (hp hg) (by simp [this])
+
+/-! non-vacuity: a concrete lifted block (MIPS `bltz` with its delay slot, as the translator emits it) is accepted -/
+
+example : guardsPartition
+    [some (.scalar ⟨"branching_condition", 1, none⟩),
+     some (.bin .cmpeq (.scalar ⟨"branching_condition", 1, none⟩) (.const ⟨1, 0⟩))] = true := by decide
+
+example : opWf ⟨32⟩ (.assign ⟨"$a0", 32, none⟩ (.bin .add (.scalar ⟨"$a1", 32, none⟩) (.const ⟨32, 4⟩))) = true := by
+  decide
 
 end Falcon.C05
